@@ -20,6 +20,9 @@ structure Sim (g g' : G) : Prop where
   pfx : (g.owner = g'.owner ∧ g.existing = g'.existing) ∨ (Old g.owner ∧ Old g'.owner)
   fn : CacheSound g.fnCache ∧ CacheSound g'.fnCache
   ty : CacheSound g.tyCache ∧ CacheSound g'.tyCache
+  /-- the dynamic ports of every entity whose architecture is running agree (they were discarded on both sides
+      when the architecture was entered); those of other classes may differ arbitrarily -/
+  dyn : ∀ fr ∈ g.s .arch, ∀ p, (fr.getD 2 0, p) ∈ g.dyn ↔ (fr.getD 2 0, p) ∈ g'.dyn
 
 theorem cur_eq {g g' : G} (h : Sim g g') : cur g = cur g' := by
   unfold cur
@@ -63,41 +66,55 @@ theorem allNew_congr {g g1 : G} (hs : g1.s = g.s) (h : AllNew g) : AllNew g1 := 
   rw [hs] at hq
   exact h j hj q hq i hi
 
-theorem sim_push {g g' : G} (k : Kind) (p : List Nat) (h : Sim g g') : Sim (push k p g) (push k p g') := by
-  refine ⟨?_, h.inst, h.reg, h.pfx, h.fn, h.ty⟩
-  intro j hj
-  by_cases e : j = k
-  · subst e; simp [h.s j hj]
-  · simp [upd_other _ _ _ _ e, h.s j hj]
+theorem sim_push {g g' : G} (k : Kind) (p : List Nat) (hk : k ≠ .arch) (h : Sim g g') :
+    Sim (push k p g) (push k p g') := by
+  refine ⟨?_, h.inst, h.reg, h.pfx, h.fn, h.ty, ?_⟩
+  · intro j hj
+    by_cases e : j = k
+    · subst e; simp [h.s j hj]
+    · simp [upd_other _ _ _ _ e, h.s j hj]
+  · intro fr hfr
+    simp only [push_s, upd_other _ _ _ _ (Ne.symm hk)] at hfr
+    exact h.dyn fr hfr
 
 theorem sim_pop {g g' : G} (k : Kind) (h : Sim g g') : Sim (pop k g) (pop k g') := by
-  refine ⟨?_, h.inst, h.reg, h.pfx, h.fn, h.ty⟩
-  intro j hj
-  by_cases e : j = k
-  · subst e; simp [h.s j hj]
-  · simp [upd_other _ _ _ _ e, h.s j hj]
+  refine ⟨?_, h.inst, h.reg, h.pfx, h.fn, h.ty, ?_⟩
+  · intro j hj
+    by_cases e : j = k
+    · subst e; simp [h.s j hj]
+    · simp [upd_other _ _ _ _ e, h.s j hj]
+  · intro fr hfr
+    refine h.dyn fr ?_
+    by_cases e : Kind.arch = k
+    · subst e
+      simp only [pop_s, upd_same] at hfr
+      exact List.mem_of_mem_tail hfr
+    · simpa only [pop_s, upd_other _ _ _ _ e] using hfr
 
 theorem sim_exitOk {g g' : G} (k : Kind) (h : Sim g g') : Sim (exitOk k g) (exitOk k g') := by
   cases k with
   | conv =>
     have hp := sim_pop .conv h
     simp only [exitOk]
-    refine ⟨hp.s, ?_, rfl, hp.pfx, hp.fn, hp.ty⟩
+    refine ⟨hp.s, ?_, rfl, hp.pfx, hp.fn, hp.ty, hp.dyn⟩
     simp only [pop_inst, pop_reg, h.inst, h.reg]
   | arch =>
     simp only [exitOk]
     rw [← h.s .arch rfl]
     split
     · have hp := sim_pop .arch h
-      exact ⟨hp.s, hp.inst, by simp [h.reg], hp.pfx, hp.fn, hp.ty⟩
+      exact ⟨hp.s, hp.inst, by simp [h.reg], hp.pfx, hp.fn, hp.ty, hp.dyn⟩
     · exact h
   | ctx =>
     simp only [exitOk]
-    refine ⟨?_, h.inst, h.reg, h.pfx, h.fn, h.ty⟩
-    intro j hj
-    by_cases e : j = .ctx
-    · subst e; simp
-    · simp [upd_other _ _ _ _ e, h.s j hj]
+    refine ⟨?_, h.inst, h.reg, h.pfx, h.fn, h.ty, ?_⟩
+    · intro j hj
+      by_cases e : j = .ctx
+      · subst e; simp
+      · simp [upd_other _ _ _ _ e, h.s j hj]
+    · intro fr hfr
+      simp only [upd_other _ _ _ _ (show Kind.arch ≠ Kind.ctx by decide)] at hfr
+      exact h.dyn fr hfr
   | archReuse => exact sim_pop _ h
   | blk => exact sim_pop _ h
   | pfx => exact sim_pop _ h
@@ -155,14 +172,14 @@ theorem sim_mkPrefix {g g' : G} (p : Nat) (h : Sim g g') (hn : AllNew g) :
     · by_cases hoc : g.owner = some c
       · have hoc' : g'.owner = some c := by rw [← ho]; exact hoc
         simp only [mkPrefix, hcur, hcur', hoc, hoc', if_true, hpfx, ← he]
-        exact ⟨_, _, _, rfl, rfl, ⟨h.s, h.inst, h.reg, Or.inl ⟨by simp [hoc, hoc'], rfl⟩, h.fn, h.ty⟩, rfl, rfl⟩
+        exact ⟨_, _, _, rfl, rfl, ⟨h.s, h.inst, h.reg, Or.inl ⟨by simp [hoc, hoc'], rfl⟩, h.fn, h.ty, h.dyn⟩, rfl, rfl⟩
       · have hoc' : ¬ g'.owner = some c := by rw [← ho]; exact hoc
         simp only [mkPrefix, hcur, hcur', hoc, hoc', if_false, hpfx]
-        exact ⟨_, _, _, rfl, rfl, ⟨h.s, h.inst, h.reg, Or.inl ⟨rfl, rfl⟩, h.fn, h.ty⟩, rfl, rfl⟩
+        exact ⟨_, _, _, rfl, rfl, ⟨h.s, h.inst, h.reg, Or.inl ⟨rfl, rfl⟩, h.fn, h.ty, h.dyn⟩, rfl, rfl⟩
     · have n1 : ¬ g.owner = some c := fun e => o1 c e c0
       have n2 : ¬ g'.owner = some c := fun e => o2 c e c0
       simp only [mkPrefix, hcur, hcur', n1, n2, if_false, hpfx]
-      exact ⟨_, _, _, rfl, rfl, ⟨h.s, h.inst, h.reg, Or.inl ⟨rfl, rfl⟩, h.fn, h.ty⟩, rfl, rfl⟩
+      exact ⟨_, _, _, rfl, rfl, ⟨h.s, h.inst, h.reg, Or.inl ⟨rfl, rfl⟩, h.fn, h.ty, h.dyn⟩, rfl, rfl⟩
 
 theorem allNew_push_other {g : G} (k : Kind) (p : List Nat) (h1 : k ≠ .arch) (h2 : k ≠ .blk)
     (h : AllNew g) : AllNew (push k p g) := by
@@ -183,16 +200,16 @@ theorem sim_enter {g g' : G} (k : Kind) (a : List Nat) (n : Nat) (h : Sim g g') 
   have generic : ∀ k : Kind, k ≠ .arch → k ≠ .blk →
       Agree (.ok (push k a g, ([] : List Tok), k)) (.ok (push k a g', ([] : List Tok), k))
         (fun g1 g1' => Sim g1 g1' ∧ AllNew g1) :=
-    fun k h1 h2 => Or.inr ⟨_, _, _, rfl, rfl, sim_push k a h, allNew_push_other k a h1 h2 hn⟩
+    fun k h1 h2 => Or.inr ⟨_, _, _, rfl, rfl, sim_push k a h1 h, allNew_push_other k a h1 h2 hn⟩
   have archCase : Agree
       (let e := a.headD 0
        if g.s .conv = [] then (.error .noConv : Except Err (G × List Tok × Kind))
        else if g.inst.contains e then .ok (push .archReuse [e] g, [[3, e]], .archReuse)
-       else .ok ({ push .arch [0, n, e] g with inst := e :: g.inst }, [], .arch))
+       else .ok ({ push .arch [0, n, e] g with inst := e :: g.inst, dyn := g.dyn.filter (fun q => q.1 != e) }, [], .arch))
       (let e := a.headD 0
        if g'.s .conv = [] then (.error .noConv : Except Err (G × List Tok × Kind))
        else if g'.inst.contains e then .ok (push .archReuse [e] g', [[3, e]], .archReuse)
-       else .ok ({ push .arch [0, n, e] g' with inst := e :: g'.inst }, [], .arch))
+       else .ok ({ push .arch [0, n, e] g' with inst := e :: g'.inst, dyn := g'.dyn.filter (fun q => q.1 != e) }, [], .arch))
       (fun g1 g1' => Sim g1 g1' ∧ AllNew g1) := by
     simp only [← h.s .conv rfl, ← h.inst]
     by_cases hc : g.s .conv = []
@@ -200,12 +217,22 @@ theorem sim_enter {g g' : G} (k : Kind) (a : List Nat) (n : Nat) (h : Sim g g') 
     · by_cases hi : g.inst.contains (a.headD 0) = true
       · right
         refine ⟨_, _, _, by simp only [hc, hi, if_true, if_false]; rfl, by simp only [hc, hi, if_true, if_false]; rfl, ?_, ?_⟩
-        · exact sim_push _ _ h
+        · exact sim_push _ _ (by decide) h
         · exact allNew_push_other _ _ (by decide) (by decide) hn
       · right
         refine ⟨_, _, _, by simp only [hc, hi, if_false]; rfl, by simp only [hc, hi, if_false]; rfl, ?_, ?_⟩
-        · have hp := sim_push .arch [0, n, a.headD 0] h
-          exact ⟨hp.s, by simp [h.inst], hp.reg, hp.pfx, hp.fn, hp.ty⟩
+        · refine ⟨?_, by simp [h.inst], h.reg, h.pfx, h.fn, h.ty, ?_⟩
+          · intro j hj
+            by_cases e : j = .arch
+            · subst e; simp [h.s _ hj]
+            · simp [upd_other _ _ _ _ e, h.s j hj]
+          · intro fr hfr p
+            simp only [push_s, upd_same, List.mem_cons] at hfr
+            simp only [List.mem_filter, bne_iff_ne, ne_eq]
+            rcases hfr with rfl | hfr
+            · simp
+            · have := h.dyn fr hfr p
+              simp only [this]
         · exact allNew_congr (g := push .arch [0, n, a.headD 0] g) rfl
             (allNew_push _ _ (by intro i hi; simp [idOf] at hi; rw [← hi]) hn)
   cases k with
@@ -215,22 +242,25 @@ theorem sim_enter {g g' : G} (k : Kind) (a : List Nat) (n : Nat) (h : Sim g g') 
     · right
       refine ⟨_, _, _, by simp only [hc, ne_eq, not_true_eq_false, if_false]; rfl,
         by simp only [hc, ne_eq, not_true_eq_false, if_false]; rfl, ?_, ?_⟩
-      · have hp := sim_push .conv [0, n] h
-        exact ⟨hp.s, hp.inst, rfl, hp.pfx, hp.fn, hp.ty⟩
+      · have hp := sim_push .conv [0, n] (by decide) h
+        exact ⟨hp.s, hp.inst, rfl, hp.pfx, hp.fn, hp.ty, hp.dyn⟩
       · exact allNew_congr (g := push .conv [0, n] g) rfl (allNew_push_other _ _ (by decide) (by decide) hn)
     · left; exact ⟨.convActive, by simp [hc], by simp [hc]⟩
   | arch => simpa only [enter] using archCase
   | archReuse => simpa only [enter] using archCase
   | blk =>
     right
-    exact ⟨_, _, _, rfl, rfl, sim_push _ _ h, allNew_push _ _ (by intro i hi; simp [idOf] at hi; rw [← hi]) hn⟩
+    exact ⟨_, _, _, rfl, rfl, sim_push _ _ (by decide) h, allNew_push _ _ (by intro i hi; simp [idOf] at hi; rw [← hi]) hn⟩
   | ctx =>
     right
-    refine ⟨_, _, _, rfl, rfl, ⟨?_, h.inst, h.reg, h.pfx, h.fn, h.ty⟩, ?_⟩
+    refine ⟨_, _, _, rfl, rfl, ⟨?_, h.inst, h.reg, h.pfx, h.fn, h.ty, ?_⟩, ?_⟩
     · intro j hj
       by_cases e : j = .ctx
       · subst e; simp
       · simp [upd_other _ _ _ _ e, h.s j hj]
+    · intro fr hfr
+      simp only [upd_other _ _ _ _ (show Kind.arch ≠ Kind.ctx by decide)] at hfr
+      exact h.dyn fr hfr
     · intro j hj q hq i hi
       have e : j ≠ .ctx := by rcases hj with rfl | rfl <;> decide
       simp only [upd_other _ _ _ _ e] at hq
@@ -240,7 +270,7 @@ theorem sim_enter {g g' : G} (k : Kind) (a : List Nat) (n : Nat) (h : Sim g g') 
     rcases sim_mkPrefix (a.headD 0) h hn with ⟨e1, e2⟩ | ⟨g1, g1', str, e1, e2, hs, hs1, _⟩
     · left; exact ⟨.noEntity, by rw [e1], by rw [e2]⟩
     · right
-      refine ⟨_, _, _, by rw [e1], by rw [e2], sim_push _ _ hs, ?_⟩
+      refine ⟨_, _, _, by rw [e1], by rw [e2], sim_push _ _ (by decide) hs, ?_⟩
       exact allNew_push_other _ _ (by decide) (by decide) (allNew_congr hs1 hn)
   | sm =>
     simp only [enter, ← h.s .sm rfl]
@@ -273,7 +303,7 @@ theorem sim_act {g g' : G} (cfg : Cfg) (perm : List Nat → List Nat) (a : Act) 
     have s1 := cacheGet_sound f h.fn.1
     have s2 := cacheGet_sound f h.fn.2
     refine ⟨{ g with fnCache := (cacheGet g.fnCache f).2 }, { g' with fnCache := (cacheGet g'.fnCache f).2 },
-      [[4, f, defOf f]], ?_, ?_, ⟨h.s, h.inst, h.reg, h.pfx, ⟨s1.2, s2.2⟩, h.ty⟩, allNew_congr rfl hn⟩
+      [[4, f, defOf f]], ?_, ?_, ⟨h.s, h.inst, h.reg, h.pfx, ⟨s1.2, s2.2⟩, h.ty, h.dyn⟩, allNew_congr rfl hn⟩
     · simp only [act, s1.1]
     · simp only [act, s2.1]
   | ty t =>
@@ -281,13 +311,37 @@ theorem sim_act {g g' : G} (cfg : Cfg) (perm : List Nat → List Nat) (a : Act) 
     have s1 := cacheGet_sound t h.ty.1
     have s2 := cacheGet_sound t h.ty.2
     refine ⟨{ g with tyCache := (cacheGet g.tyCache t).2 }, { g' with tyCache := (cacheGet g'.tyCache t).2 },
-      [[5, t, defOf t]], ?_, ?_, ⟨h.s, h.inst, h.reg, h.pfx, h.fn, ⟨s1.2, s2.2⟩⟩, allNew_congr rfl hn⟩
+      [[5, t, defOf t]], ?_, ?_, ⟨h.s, h.inst, h.reg, h.pfx, h.fn, ⟨s1.2, s2.2⟩, h.dyn⟩, allNew_congr rfl hn⟩
     · simp only [act, s1.1]
     · simp only [act, s2.1]
-  | ifExpr => right; exact ⟨_, _, _, rfl, rfl, ⟨h.s, h.inst, h.reg, h.pfx, h.fn, h.ty⟩, allNew_congr rfl hn⟩
+  | ifExpr => right; exact ⟨_, _, _, rfl, rfl, ⟨h.s, h.inst, h.reg, h.pfx, h.fn, h.ty, h.dyn⟩, allNew_congr rfl hn⟩
   | libs xs => right; exact ⟨_, _, _, rfl, rfl, h, hn⟩
   | mem x xs => right; exact ⟨_, _, _, rfl, rfl, h, hn⟩
   | emit t => right; exact ⟨_, _, _, rfl, rfl, h, hn⟩
+  | addPort p =>
+    simp only [act, ← h.s .arch rfl]
+    cases hs : g.s .arch with
+    | nil => left; exact ⟨_, rfl, rfl⟩
+    | cons fr frs =>
+      simp only
+      have hd := h.dyn fr (by simp [hs]) p
+      by_cases hc : g.dyn.contains (fr.getD 2 0, p) = true
+      · have hc' : g'.dyn.contains (fr.getD 2 0, p) = true := by
+          simp only [List.contains_eq_mem, decide_eq_true_eq] at hc ⊢
+          exact hd.mp hc
+        left; exact ⟨.portExists, by simp only [hc, if_true], by simp only [hc', if_true]⟩
+      · have hc' : ¬ g'.dyn.contains (fr.getD 2 0, p) = true := by
+          simp only [List.contains_eq_mem, decide_eq_true_eq] at hc ⊢
+          exact fun x => hc (hd.mpr x)
+        right
+        have hc1 : g.dyn.contains (fr.getD 2 0, p) = false := by simpa using hc
+        have hc2 : g'.dyn.contains (fr.getD 2 0, p) = false := by simpa using hc'
+        refine ⟨{ g with dyn := (fr.getD 2 0, p) :: g.dyn }, { g' with dyn := (fr.getD 2 0, p) :: g'.dyn },
+          [[9, fr.getD 2 0, p]], by rw [hc1]; rfl, by rw [hc2]; rfl,
+          ⟨h.s, h.inst, h.reg, h.pfx, h.fn, h.ty, ?_⟩, allNew_congr rfl hn⟩
+        intro fr2 hfr2 q
+        have := h.dyn fr2 hfr2 q
+        simp only [List.mem_cons, this]
 
 /-- two runs of the same events from simulating states give the same result -/
 theorem run_result_eq (cfg : Cfg) (perm : List Nat → List Nat) (evs : List Ev) :
@@ -325,7 +379,8 @@ namespace CohdlVerif.C11
 theorem sim_init {g : G} (h : Clean g) (ho : Old g.owner) (hf : CacheSound g.fnCache) (ht : CacheSound g.tyCache) :
     Sim g G.init ∧ AllNew g := by
   refine ⟨⟨fun k hk => by rw [h.1 k hk]; rfl, h.2.1, h.2.2, Or.inr ⟨ho, fun p hp => by simp [G.init] at hp⟩,
-    ⟨hf, fun e he => by simp [G.init] at he⟩, ⟨ht, fun e he => by simp [G.init] at he⟩⟩, ?_⟩
+    ⟨hf, fun e he => by simp [G.init] at he⟩, ⟨ht, fun e he => by simp [G.init] at he⟩,
+    fun fr hfr => by rw [h.1 .arch rfl] at hfr; simp at hfr⟩, ?_⟩
   intro k hk p hp
   rcases hk with rfl | rfl
   · rw [h.1 .arch rfl] at hp; simp at hp
@@ -438,6 +493,12 @@ theorem act_sound {cfg : Cfg} {perm : List Nat → List Nat} {a : Act} {g g1 : G
   case ty f =>
     simp only [Except.ok.injEq, Prod.mk.injEq] at h; obtain ⟨rfl, _⟩ := h
     exact ⟨hs.1, (cacheGet_sound f hs.2).2⟩
+  case addPort p =>
+    split at h
+    · split at h
+      · simp at h
+      · simp only [Except.ok.injEq, Prod.mk.injEq] at h; obtain ⟨rfl, _⟩ := h; exact hs
+    · simp at h
   all_goals (simp only [Except.ok.injEq, Prod.mk.injEq] at h; obtain ⟨rfl, _⟩ := h; exact hs)
 
 /-- the caches stay sound through a whole compilation, whatever happens in it -/
